@@ -2,6 +2,7 @@ package vc
 
 import (
 	"fmt"
+	"sync"
 	"go/token"
 	"go/types"
 	"sort"
@@ -162,6 +163,11 @@ type Exec struct {
 	extMemo    map[[2]int][2]*smt.Term
 	quantNames map[int]*smt.Term
 	macroEqs   []macroEq
+	curRecBase map[string]int
+	funcsMemo  map[*ssa.Function]bool
+	mu         sync.Mutex
+	seqProbe   *smt.Term
+	seqByKey   map[string]*smt.Term
 	preWrites  int
 	assigns    []*Loc
 	assignsAny bool
@@ -659,6 +665,10 @@ func (e *Exec) getPath(v Value, path []PathElem) Value {
 			}
 			v = a.Read(p.Idx)
 		} else {
+			if sc, ok := v.(Scalar); ok && sc.Typ != nil {
+				v = e.projectField(sc, p.Field)
+				continue
+			}
 			s, ok := v.(*StructV)
 			if !ok {
 				e.refuse("field of non-struct value %T", v)
@@ -667,6 +677,17 @@ func (e *Exec) getPath(v Value, path []PathElem) Value {
 		}
 	}
 	return v
+}
+
+// projectField reads field i of a value of an abstract struct type through
+// an uninterpreted projection.
+func (e *Exec) projectField(sc Scalar, i int) Value {
+	st, ok := sc.Typ.Underlying().(*types.Struct)
+	if !ok {
+		e.refuse("field of non-struct abstract value")
+	}
+	ft := st.Field(i).Type()
+	return e.fromTerm(ft, e.C.App(fmt.Sprintf("proj_%s_%s", sc.T.Sort.Name, st.Field(i).Name()), sortOf(ft), sc.T), st.Field(i).Name())
 }
 
 func (e *Exec) setPath(v Value, path []PathElem, nv Value) Value {
